@@ -478,7 +478,11 @@ def cmd_search(prop, tier, verif_seed, runs=None, workers=None, wall_cap=None, f
         os.makedirs(os.path.join(OUT, "replays"), exist_ok=True)
         with open(os.path.join(OUT, "replays", f"{prop}-harness-error-{verif_seed}-{e['run_index']}.json"), "w") as f:
             json.dump(e, f)
-        status = 2
+        # Harness errors in SOME runs do not un-happen a violation that was minimised and
+        # reproduced by replay in another run: that stays exit 1 (both are printed).  Without a
+        # confirmed violation the batch is unreliable: exit 2.
+        if not (reported and status == 1):
+            status = 2
     if broken:
         print(f"HARNESS-ERROR {broken}")
         status = 2
